@@ -590,9 +590,10 @@ func init() {
 				}
 			}
 			if f.step == 1 && doubling >= 6 {
-				res.KnownSeen = append(res.KnownSeen, "D8")
-				e, _ := f.gen(f.max)
-				res.Notes = append(res.Notes, fmt.Sprintf("D8 observed: in family %s the allocation of Satisfies / ExtractLicenses multiplied by >= 1.7 for each added group in %d of the steps (largest input %d bytes)", f.name, doubling, len(e)))
+				// exponential growth in the text length: a violation of C14 in its own right (listed as known finding D8)
+				e, a := f.gen(8)
+				fail(failure{Stream: "oracle", What: fmt.Sprintf("known-exponential-family %s: the allocation of Satisfies / ExtractLicenses multiplied by >= 1.7 for each added OR group in %d measured steps (n = 6..%d; the text grows by 17 bytes per group): the cross product of alternatives is materialised by expandAnd -> appendTerms", f.name, doubling, f.max),
+					Case: &kase{Expr: e, Allowed: a, Extra: map[string]string{"family": f.name, "n": "8", "fn": "0"}}, Impl: "x2 per group", Expected: "polynomial growth"})
 			}
 		}
 	}
